@@ -9,8 +9,8 @@ simulated MPI and the mpio-emulating h5py layer):
      the extracted hyperslab model; several checkpoints with times of different digit counts, the
      latest one chosen by the code compared with the numeric maximum and with the lexicographic model.
  (b) constants: file -> get_constants -> setupSave/print -> get_constants, keys shuffled, symbolic
-     expressions; all public attributes compared exactly (test only: there is no Coq model of the
-     parser).
+     expressions (two-level chains, non-default roots); all public attributes compared exactly with a direct
+     oracle and with the extracted parser model of ConstantsIO.v (ckparse; fail-closed translator).
  (c) the REAL fullSimulation.main() with the physics classes replaced by element-wise integer maps
      (props/c18_driver.py): many (tEnd, saveStep, dt, stop point, restart, rank count) histories; files,
      rows of phiDat.txt and checkpoint contents against the Driver model and against direct oracles (every time
@@ -446,6 +446,7 @@ def const_case(c):
                     diffs.append(('parse', k, a1.get(k), (type(v).__name__, repr(v))))
             if 'rp' in vals and a1.get('rp') != ('float', repr(vals['rp'])):
                 diffs.append(('parse-rp', 'rp', a1.get('rp'), ('float', repr(vals['rp']))))
+            diffs.append(('__attrs__', dict(a1), None, None))
         a1 = attrs_of(c1)
 
         def sv(comm):
@@ -489,6 +490,119 @@ def gen_const_cases(chk, rng):
     return cases
 
 
+MODEL_KEYS = ['rMin', 'rMax', 'rp'] + SCALARS + ['CN0', 'm', 'n', 'npts', 'splineDegrees', 'dt']
+FLOAT_KEYS = ['rMin', 'rMax', 'rp'] + SCALARS + ['CN0']
+
+
+def _bits(x):
+    import struct
+    return '%x' % struct.unpack('<Q', struct.pack('<d', float(x)))[0]
+
+
+class Untranslatable(Exception):
+    pass
+
+
+def expr_to_model(text):
+    """fail-closed translation of an expression string to the prefix form of the ckparse handler: only
+    identifiers that are modelled keys, numeric literals, pi, unary minus, + - * / and parentheses"""
+    import ast
+    import math
+    ids = []
+
+    def go(n):
+        if isinstance(n, ast.BinOp) and type(n.op) in (ast.Add, ast.Sub, ast.Mult, ast.Div):
+            return [{ast.Add: '+', ast.Sub: '-', ast.Mult: '*', ast.Div: '/'}[type(n.op)]] + go(n.left) + go(n.right)
+        if isinstance(n, ast.UnaryOp) and isinstance(n.op, ast.USub):
+            return ['n'] + go(n.operand)
+        if isinstance(n, ast.Name):
+            if n.id == 'pi':
+                return ['l' + _bits(math.pi)]
+            if n.id in FLOAT_KEYS:
+                ids.append(n.id)
+                return ['i%d' % MODEL_KEYS.index(n.id)]
+            raise Untranslatable('name ' + n.id)
+        if isinstance(n, ast.Constant) and type(n.value) in (int, float) and 'e' not in repr(n.value).lower():
+            return ['l' + _bits(n.value)]
+        raise Untranslatable(ast.dump(n))
+    try:
+        toks = go(ast.parse(text, mode='eval').body)
+    except SyntaxError as e:
+        raise Untranslatable(str(e))
+    return toks, ids
+
+
+def const_model_request(text):
+    """the ckparse request of a constants file (dict in file order): entries, a rank certificate, defaults"""
+    from pygyro.initialisation.default_constants import defaults
+    ents, deps = [], {}
+    for k, v in text.items():
+        i = MODEL_KEYS.index(k)
+        if isinstance(v, str):
+            toks, ids = expr_to_model(v)
+            ents.append('%d E %s' % (i, ' '.join(toks)))
+            deps[k] = ids
+        else:
+            ents.append('%d N %s' % (i, _bits(v) if k in FLOAT_KEYS else _bits(0.0)))
+            deps[k] = []
+    rank = {}
+
+    def rk(k, seen=()):
+        if k in seen or k not in deps:
+            return 0              # cycle / undefined: the model's boolean check rejects the certificate
+        if k not in rank:
+            rank[k] = 0 if not deps[k] else 1 + max(rk(j, seen + (k,)) for j in deps[k])
+        return rank[k]
+    ranks = [rk(k) for k in MODEL_KEYS]
+    dfl = ['%d:%s' % (MODEL_KEYS.index(k), _bits(v)) for k, v in defaults.items()
+           if k in MODEL_KEYS and isinstance(v, (int, float))]
+    return 'ckparse | %d 0 1 2 | %s | %s | %s' % (len(MODEL_KEYS), ' '.join(map(str, ranks)), ' '.join(dfl), ' ; '.join(ents))
+
+
+def check_const_model(chk, cases, results):
+    """implementation vs the extracted parser model (ConstantsIO.v) on the generated files"""
+    req, who = [], []
+    for c, r in zip(cases, results):
+        if c['mode'] == 'object' or not isinstance(r, list):
+            continue
+        at = [x for x in r if x[0] == '__attrs__']
+        if not at:
+            continue
+        text, vals = gen_const_file(random.Random(c['seed']), c['mode'])
+        try:
+            req.append(const_model_request(text))
+        except Untranslatable as e:
+            chk.violation('constants:translator', 'generated file outside the modelled expression subset: %s (%r)' % (e, text),
+                          {'kind': 'const', 'case': c}, no_input=True)
+            continue
+        who.append((c, text, at[0][1]))
+    answers = core.model_parallel(req) if req else []
+    check_const_model.sample = list(zip(req, answers))[:6 if chk.tier == 'quick' else 30]
+    for (c, text, a1), ans in zip(who, answers):
+        chk.cov['certificates_checked'] += 1
+        rep = {'kind': 'const', 'case': c, 'model': ans[:200]}
+        parts = ans.split()
+        wf_expected = 'wf=0' if 'rp' in text else 'wf=1'
+        if parts[0] != wf_expected:
+            chk.violation('constants:wf-hypothesis', 'cp_wfb gives %s, expected %s for %r' % (parts[0], wf_expected, text),
+                          rep, no_input=True)
+        if parts[1] != 'ok':
+            chk.violation('constants:model-mismatch', 'implementation parsed the file, the model answers %s: %r' % (parts[1], text), rep)
+            continue
+        bad = []
+        for k in FLOAT_KEYS:
+            if k == 'CN0' and 'CN0' not in text:
+                continue          # integrated numerically by getCN0: outside the model
+            mv = parts[2 + MODEL_KEYS.index(k)]
+            iv = a1.get(k)
+            ib = _bits(float(iv[1])) if iv and iv[0] in ('float', 'int') else '-'
+            if mv != ib:
+                bad.append((k, iv, mv))
+        if bad:
+            chk.violation('constants:model-mismatch', 'implementation and parser model differ on %r for file %r' % (bad[:3], text), rep)
+    return len(who)
+
+
 def check_const(chk, cases, results):
     for c, r in zip(cases, results):
         custom_rp = c['mode'] == 'rp' or c.get('rp')
@@ -498,6 +612,7 @@ def check_const(chk, cases, results):
         if not isinstance(r, list):
             chk.violation('constants:exception', 'constants case raised %r: %r' % (r, c), rep)
             continue
+        r = [x for x in r if x[0] != '__attrs__']
         other = [x for x in r if not (x[1] == 'rp' and custom_rp)]
         rp = [x for x in r if x[1] == 'rp' and custom_rp]
         if rp:
@@ -893,6 +1008,47 @@ def real_case(c):
 
 
 # ------------------------------------------------------------------------------------------------
+def const_coq_terms(sample):
+    """ckparse requests re-written as Coq terms on primitive floats; expected answers as float lists"""
+    import struct
+
+    def fl(h):
+        x = struct.unpack('<d', struct.pack('<Q', int(h, 16)))[0]
+        return '(%s)%%float' % x.hex() if x == x and abs(x) != float('inf') else None
+
+    def expr(toks):
+        t = toks.pop(0)
+        if t[0] == 'i':
+            return '(EId float %s)' % t[1:]
+        if t[0] == 'l':
+            return '(ELit float %s)' % fl(t[1:])
+        if t == 'n':
+            return '(ENeg float %s)' % expr(toks)
+        a = expr(toks)
+        b = expr(toks)
+        return '(EBin float %s %s %s)' % ({'+': 'OAdd', '-': 'OSub', '*': 'OMul', '/': 'ODiv'}[t], a, b)
+    terms, exp = [], []
+    for req, ans in sample:
+        parts = [x.split() for x in req.split('|')]
+        if ans.split()[1] != 'ok':
+            continue
+        n = int(parts[1][0])
+        dfl = '; '.join('(%s%%nat, %s)' % (d.split(':')[0], fl(d.split(':')[1])) for d in parts[3])
+        ents = []
+        for e in ' '.join(parts[4]).split(';'):
+            t = e.split()
+            if t[1] == 'N':
+                ents.append('(%s%%nat, CNum float %s)' % (t[0], fl(t[2])))
+            else:
+                ents.append('(%s%%nat, CExpr float %s)' % (t[0], expr(t[2:])))
+        term = 'cp_get_float [%s] [%s] %d' % (dfl, '; '.join(ents), n)
+        if 'None)' in term or 'None;' in term or ' None' in term:
+            continue
+        terms.append(term)
+        exp.append([None if v == '-' else struct.unpack('<d', struct.pack('<Q', int(v, 16)))[0] for v in ans.split()[2:]])
+    return terms, exp
+
+
 def coq_crosscheck(chk, rng, dcases, model):
     """a sample of driver histories and hyperslab reads re-evaluated by vm_compute"""
     terms, exp = [], []
@@ -921,12 +1077,20 @@ def coq_crosscheck(chk, rng, dcases, model):
         reqs.append('ckrt | %s | %s | %s | %s | %s' % tuple(' '.join(map(str, l)) for l in (shp, g, g2, crd, cells)))
     for a in core.model(reqs):
         exp.append('[' + '; '.join('None' if x == '-' else 'Some %s' % x for x in a.split()) + ']')
-    vals = core.coq_eval(terms, 'From Coq Require Import List. Import ListNotations. From PGV Require Import Checkpoint Driver.',
-                         tag='c18')
+    cterms, cexp = const_coq_terms(getattr(check_const_model, 'sample', []))
+    vals = core.coq_eval(terms + cterms, 'From Coq Require Import List Floats. Import ListNotations. '
+                         'From PGV Require Import Checkpoint Driver ConstantsIO.', tag='c18')
+    import re as _re
+    for t, v, e in zip(cterms, vals[len(terms):], cexp):
+        got = [None if x == 'None' else float(x[5:]) for x in _re.findall(r'None|Some -?[0-9.e+-]+|Some nan|Some -?infinity', v.replace('(', '').replace(')', ''))]
+        if len(got) != len(e) or any((a is None) != (b is None) or (a is not None and a != b and not (a != a and b != b))
+                                     for a, b in zip(got, e)):
+            raise core.BrokenCheck('extracted constants parser and vm_compute (PrimFloat) disagree: %r vs %r' % (got, e))
+    vals = vals[:len(terms)]
     bad = [(t, v, e) for t, v, e in zip(terms, vals, exp) if v.replace(' ', '') != e.replace(' ', '')]
     if bad:
         raise core.BrokenCheck('extracted model and vm_compute disagree: %r' % (bad[:2],))
-    return len(terms)
+    return len(terms) + len(cterms)
 
 
 def run():
@@ -940,6 +1104,7 @@ def run():
     check_ckpt(chk, acases, ares)
     bres = implrun.run_cases('props.c18', 'const_case', bcases, tmo=60.0, chunk=10)
     check_const(chk, bcases, bres)
+    nconst_model = check_const_model(chk, bcases, bres)
     dres = implrun.run_cases('props.c18', 'driver_case', dcases, tmo=300.0, chunk=3)
     model = check_driver(chk, dcases, dres)
     nreal = 0
@@ -966,7 +1131,8 @@ def run():
         'stand-in physics of part (c) is such a function by construction, the true physics is sampled in the thorough tier only',
         'Python str.format "{:06}" and string comparison are modelled by CkNames.v (ck_fmt06, ck_lex_lt) and compared with '
         'Python on every multi-checkpoint case',
-        'constants printer/parser: tested (part b), not modelled in Coq',
+        'constants parser model (ConstantsIO.v): arithmetic is abstract in the theorems and IEEE binary64 of OCaml / '
+        'PrimFloat in the executed instances, taken to be that of CPython',
         'Driver.v counts time in steps; histories with a float dt are compared with the same model through the '
         'accumulated binary64 time of step k; restart_time_index_nearest is instantiated on the exact values of every '
         'float restart time (cknear), the float evaluation of t/dt + 0.5 itself is not modelled']
@@ -977,10 +1143,14 @@ def run():
              '(b) constants files: literal / symbolic / modified objects, shuffled keys. (c) driver histories with stand-in physics: '
              'saveStep 1..7, dt 1..3 (float 0.5 / 2.0 in one history of seven, non-dyadic 0.1 / 0.3 / 0.7 with stop points where t // dt is one short in another), 1-3 segments, stop by tEnd or by the wall-clock oracle, 1-8 ranks per segment; non-trivial = at '
              'least one step. distinct = distinct case description',
-        extra={'coq_vm_compute_crosschecked': ncoq, 'real_physics_runs': nreal,
+        extra={'coq_vm_compute_crosschecked': ncoq, 'constants_files_vs_parser_model': nconst_model, 'real_physics_runs': nreal,
                'parts': {'checkpoint_cases': len(acases), 'constants_cases': len(bcases), 'driver_histories': len(dcases)}},
         uncovered=['HDF5 / file-system crash behaviour and real MPI-IO are outside the model',
-                   'constants printer/parser (print_parse_roundtrip, parse_order_independent) is tested, not proved',
+                   'constants: eval_expr accepts more than the modelled expression subset (** through the empty split, any '
+                   'name of the math module, attribute names that are methods, exponent literals break the split); the '
+                   'harness translator is fail-closed on the generated files. Textual substitution + eval is modelled as '
+                   'evaluation of the syntax tree; ZeroDivisionError, lists (npts, splineDegrees), int-valued results and the '
+                   'numerical integration of CN0 are outside the model',
                    'true-physics split-vs-unsplit equality is sampled (thorough tier), the model takes step as a function'])
 
 
@@ -1004,6 +1174,7 @@ def replay(path):
         r = implrun.run_cases('props.c18', 'const_case', [c], tmo=60.0)[0]
         print('case', c, '\ndifferences', r)
         check_const(chk, [c], [r])
+        check_const_model(chk, [c], [r])
     elif rp['kind'] == 'driver':
         r = implrun.run_cases('props.c18', 'driver_case', [c], tmo=300.0)[0]
         print('case', c)
